@@ -194,10 +194,10 @@ class SingleAxisFiniteDifference(LinearOperator):
 
         if axis < 0:
             axis = len(input_shape) + axis
-        if axis >= len(input_shape):
+        if axis < 0 or axis >= len(input_shape):
             raise ValueError(
-                f"Invalid axis {axis} specified; axis must be less than "
-                f"len(input_shape)={len(input_shape)}."
+                f"Invalid axis {axis} specified; axis must be in the range "
+                f"[-len(input_shape), len(input_shape)) with len(input_shape)={len(input_shape)}."
             )
 
         self.axis = axis
